@@ -208,6 +208,10 @@ Loop:
 			}
 		case 2:
 			body += text
+			if len(body) >= contentLength {
+				// Complete, e.g. a body that ends with CRLF
+				break Loop
+			}
 		}
 	}
 
